@@ -154,6 +154,8 @@ type HistOpts struct {
 	Focus     string
 	NearVotes bool // governance votes target the next few heights
 	OrderDance int // percent of blocks that contain a fill-then-cancel pair on a committed order
+	Warmup    int  // empty blocks (all validators sign, no evidence, no txs) before the generated ones: leaves the initial grace period
+	DupByzPct int  // percent chance that an evidence entry is delivered twice in the same block
 }
 
 // Hist is a running history.
@@ -239,8 +241,11 @@ func NewHist(o HistOpts, sink *Sink) (*Hist, error) {
 	h.PrevSet = copySet(h.TmSet)
 	h.T = time.Date(2024, 1, 10, 9, 0, 0, 0, time.UTC)
 	// params + initial state
-	sink.Op(fmt.Sprintf("P period=%d expire=%d unbond=%d move=%d jail=%d initial=%d chain=%d", n.Period, n.ExpirePeriod, types.GetUnbondPeriod(), types.GetMovePeriod(), types.GetJailPeriod(), InitialHeight, types.CurrentChainID))
+	sink.Op(fmt.Sprintf("P period=%d expire=%d unbond=%d move=%d jail=%d initial=%d chain=%d liveup=1", n.Period, n.ExpirePeriod, types.GetUnbondPeriod(), types.GetMovePeriod(), types.GetJailPeriod(), InitialHeight, types.CurrentChainID))
 	h.sendFull("S init")
+	// InitChain ends with updateValidators(): the validators in memory already carry the recalculated stakes
+	// that reach the disk only with the first Commit. Give the driver the live view before the first BeginBlock.
+	h.sendLive("S live")
 	return h, nil
 }
 
@@ -582,10 +587,13 @@ func (h *Hist) Block() bool {
 	// Tendermint semantics: updates returned by EndBlock(h) take effect at h+2; LastCommitInfo of block h'
 	// lists the validators of height h'-1.
 	votes := h.commitVotes(height)
+	warm := h.O.Warmup > 0 && height < uint64(InitialHeight)+uint64(h.O.Warmup)
 	var vparts []string
 	for i := range votes {
 		a := votes[i].Addr
-		if h.Absent[a] > 0 {
+		if warm {
+			// warm-up block: everybody signs
+		} else if h.Absent[a] > 0 {
 			h.Absent[a]--
 			votes[i].Signed = false
 		} else if h.O.AbsentPct > 0 && h.W.Rng.Intn(100) < h.O.AbsentPct {
@@ -602,7 +610,7 @@ func (h *Hist) Block() bool {
 	var bparts []string
 	// evidence aimed at validators that have unbonding / moving funds maturing exactly now (high priority),
 	// next block, or at the far end of the punishment window
-	if h.O.ByzPct > 0 && len(votes) > 0 {
+	if h.O.ByzPct > 0 && len(votes) > 0 && !warm {
 		var now, near []types.TmAddress
 		keys := make([]string, 0, len(h.View))
 		for k := range h.View {
@@ -642,13 +650,18 @@ func (h *Hist) Block() bool {
 			bparts = append(bparts, fmt.Sprintf("%x", a[:]))
 		}
 	}
-	if len(byz) == 0 && h.O.ByzPct > 0 && h.W.Rng.Intn(100) < h.O.ByzPct && len(votes) > 0 {
+	if len(byz) == 0 && h.O.ByzPct > 0 && !warm && h.W.Rng.Intn(100) < h.O.ByzPct && len(votes) > 0 {
 		a := votes[h.W.Rng.Intn(len(votes))].Addr
 		if h.W.Rng.Intn(6) == 0 {
 			h.W.Rng.Read(a[:])
 		}
 		byz = append(byz, a)
 		bparts = append(bparts, fmt.Sprintf("%x", a[:]))
+	}
+	if len(byz) > 0 && h.O.DupByzPct > 0 && h.W.Rng.Intn(100) < h.O.DupByzPct {
+		// Tendermint may deliver several pieces of evidence against one validator in a block
+		byz = append(byz, byz[0])
+		bparts = append(bparts, bparts[0])
 	}
 	stopsBefore := n.App.VerifStopCount()
 	pan := n.Begin(height, t, votes, byz)
@@ -669,7 +682,43 @@ func (h *Hist) Block() bool {
 		h.Stats["halt"]++
 		return false
 	}
+	// coverage of BeginBlock's branches (what the driver's BeginBlock model was compared on)
+	pre := map[string]string{}
+	for k, v := range h.View {
+		if strings.HasPrefix(k, "cand ") || strings.HasPrefix(k, "v ") || k == "app slashed" {
+			pre[k] = v
+		} else if strings.HasPrefix(k, fmt.Sprintf("ff %d ", height)) {
+			h.Stats["begin.matured"]++
+			if f := strings.Fields(v); len(f) == 6 && f[5] != "0" {
+				h.Stats["begin.matured-move"]++
+			}
+		}
+	}
 	h.sendLive("S begin")
+	h.Stats["begin.blocks"]++
+	h.Stats["begin.evidence"] += len(byz)
+	for k, v := range pre {
+		nv := h.View[k]
+		if nv == v {
+			continue
+		}
+		switch {
+		case k == "app slashed":
+			h.Stats["begin.slashing-blocks"]++
+		case strings.HasPrefix(k, "v ") && strings.HasSuffix(nv, " drop"):
+			h.Stats["begin.validator-dropped"]++
+		case strings.HasPrefix(k, "cand "):
+			of, nf := strings.Fields(v), strings.Fields(nv)
+			if len(of) == 9 && len(nf) == 9 {
+				if of[5] != nf[5] {
+					h.Stats["begin.switched-off"]++
+				}
+				if of[6] != nf[6] {
+					h.Stats["begin.jailed"]++
+				}
+			}
+		}
+	}
 	ntx := h.W.Rng.Intn(h.O.TxPerBlk*2 + 1)
 	var queue []*GenTx
 	if h.O.OrderDance > 0 && h.W.Rng.Intn(100) < h.O.OrderDance {
@@ -678,6 +727,9 @@ func (h *Hist) Block() bool {
 	danceAt := -1
 	if h.O.OrderDance > 0 && ntx >= 2 && h.W.Rng.Intn(100) < h.O.OrderDance {
 		danceAt = h.W.Rng.Intn(ntx - 1)
+	}
+	if warm {
+		ntx, danceAt = 0, -1
 	}
 	for i := 0; i < ntx; i++ {
 		var g *GenTx
@@ -981,7 +1033,7 @@ func (h *Hist) blockTwin(twin *Node, res *ModeResult, fail func(string)) bool {
 }
 
 func (h *Hist) Run() {
-	for i := 0; i < h.O.Blocks; i++ {
+	for i := 0; i < h.O.Blocks+h.O.Warmup; i++ {
 		if !h.Block() {
 			break
 		}
